@@ -89,7 +89,7 @@ def contracted_unique():
 
 def gen_label_array(rng: random.Random):
     nd = rng.choice([2, 2, 3])
-    multiseg = nd == 2 and rng.random() < 0.3
+    multiseg = rng.random() < 0.3  # (h, t, [z], y, x)
     T = rng.randint(1, 6)
     H = rng.randint(1, 3) if multiseg else None
     shape = (6, 6) if nd == 2 else (3, 4, 4)
@@ -97,11 +97,22 @@ def gen_label_array(rng: random.Random):
     arr = np.zeros((nframes, *shape), dtype=rng.choice([np.int32, np.int64, np.uint16]))
     pattern = ""
     pool = rng.choice([[1, 2, 3], [1, 2, 3, 4, 5, 6], [5, 17, 300], [1, 1000, 60000]])
+    tiny = rng.random() < 0.15
+    if tiny:
+        # tiny frames that labels can cover completely (a frame without any background),
+        # with the same label values used again in other frames
+        shape = (1, 2) if nd == 2 else (1, 1, 2)
+        arr = np.zeros((nframes, *shape), dtype=arr.dtype)
+        pool = [1, 2, 3]
     for f in range(nframes):
         if rng.random() < 0.3:
             pattern += "."
             continue
         pattern += "x"
+        if tiny and rng.random() < 0.6:
+            vals = [rng.choice(pool) for _ in range(int(np.prod(shape)))]
+            arr[f] = np.array(vals, dtype=arr.dtype).reshape(shape)
+            continue
         k = rng.randint(1, min(3, len(pool)))
         for lab in rng.sample(pool, k):
             occ = arr[f] != 0
@@ -122,6 +133,11 @@ def check_unique(rng, acc):
     if "." in pattern.strip(".") or (pattern.startswith(".") and "x" in pattern):
         acc["counters"]["unique-with-empty-frame-before-labels"] = \
             acc["counters"].get("unique-with-empty-frame-before-labels", 0) + 1
+    if any((fr != 0).all() for fr in (arr.reshape((-1, *arr.shape[2:])) if multiseg else arr)):
+        acc["counters"]["unique-with-a-frame-without-background"] = \
+            acc["counters"].get("unique-with-a-frame-without-background", 0) + 1
+    if multiseg and nd == 3:
+        acc["counters"]["unique-multiseg-3d"] = acc["counters"].get("unique-multiseg-3d", 0) + 1
     if pattern.count("x") >= 2:
         acc["keys"].add(f"unique/{nd}D/{pattern}/multiseg={multiseg}")
     try:
@@ -255,7 +271,8 @@ def run_shard(spec):
 def floors(tier):
     return {"unique-cases": 1500, "relabel-cases": 1500, "postcondition-evaluations": 1500,
             "unique-with-empty-frame-before-labels": 300, "relabel-with-division": 200,
-            "relabel-with-unused-detections": 300}
+            "relabel-with-unused-detections": 300, "unique-multiseg-3d": 100,
+            "unique-with-a-frame-without-background": 100}
 
 
 def replay(doc):
